@@ -138,7 +138,7 @@ func execPredicate(context *exprContext, expr *grammar.Grammar) error {
 		}
 
 		if n, ok := left.(Number); ok {
-			if (i + 1) == int(n) {
+			if float64(i+1) == float64(n) {
 				nextResult = append(nextResult, nodeSet[i])
 			}
 		} else if b, ok := left.(Bool); ok {
